@@ -50,7 +50,7 @@ def not_nested(p, q):
 def explore(ctx):
     yaml, yatiml = L.setup()
     rng = ctx.rng
-    cases = []
+    cases = LC.CaseBuffer(ctx)
     for c in LC.gen_cases(ctx, ctx.budget(400, 9000), mutate_p=0.25, prop='C18'):
         if c.doc is None:
             # corpus texts already contain aliases: compare with the model only
